@@ -332,12 +332,26 @@ def grouped_stream_to_frames(
 
     """
     stream = None
+    # Leading empty sinks do not tell triples from quads: wait for the first statement.
+    undecided: list[GenericStatementSink] = []
     for sink in sink_generator:
         if not stream:
+            undecided.append(sink)
+            if not len(sink):
+                continue
             if options is None:
                 options = guess_options(sink)
             stream = guess_stream(options, sink)
+            for waiting in undecided:
+                yield from stream_frames(stream, waiting)
+            continue
         yield from stream_frames(stream, sink)
+    if not stream and undecided:
+        if options is None:
+            options = guess_options(undecided[0])
+        stream = guess_stream(options, undecided[0])
+        for waiting in undecided:
+            yield from stream_frames(stream, waiting)
 
 
 def grouped_stream_to_file(
